@@ -133,7 +133,7 @@ def validate_records(records, trace_module, trace_cfg="", *, chunk=4000, jobs=NC
         return {}
     trace_cfg = trace_cfg or trace_module + ".cfg"
     d = tempfile.mkdtemp(prefix="trace-", dir=scratch())
-    nchunks = max(1, min(jobs * 4, (len(records) + chunk - 1) // chunk))
+    nchunks = max(1, (len(records) + chunk - 1) // chunk)  # bounded chunk size: a 1g JVM parses a few thousand records
     size = (len(records) + nchunks - 1) // nchunks
     files = []
     for c in range(nchunks):
@@ -164,7 +164,7 @@ def validate_records(records, trace_module, trace_cfg="", *, chunk=4000, jobs=NC
         return bad
 
     bad = {}
-    with ThreadPoolExecutor(max_workers=min(jobs, 10)) as ex:  # at most 10 JVMs x 1g at a time
+    with ThreadPoolExecutor(max_workers=max(1, min(jobs, 10))) as ex:  # at most 10 JVMs x 1g at a time
         for b in ex.map(one, files):
             bad.update(b)
     shutil.rmtree(d, ignore_errors=True)
